@@ -288,6 +288,7 @@ pub fn exec_line(line: &str) -> String {
         "HIST" => run_history(fields[1], &fields[2..], |_, _| None).0.join(" ;; "),
         "REG" => exec_reg(&fields[1..]),
         "ANG" => exec_ang(&fields[1..]),
+        "TUP" => exec_tup(&fields[1..]),
         "GRID" => exec_grid(&fields[1..]),
         "GRIDS" => exec_grids(&fields[1..]),
         "KP" => {
@@ -339,6 +340,44 @@ fn exec_ang(fields: &[&str]) -> String {
         _ => return "bad-case".to_string(),
     };
     fbits(r)
+}
+
+/// one method of the `CoordinateTuple` trait on a tuple of 2, 3 or 4 elements:
+/// `TUP dim vals op args` prints the tuple afterwards and the value read, if any
+fn tup_op<T: CoordinateTuple + Copy>(mut t: T, op: &str, a: &[f64]) -> String {
+    let mut read: Vec<f64> = vec![];
+    match (op, a.len()) {
+        ("nth", 1) => read.push(t.nth(if a[0].is_finite() && a[0] >= 0.0 { a[0] as usize } else { usize::MAX })),
+        ("x", 0) => read.push(t.x()),
+        ("y", 0) => read.push(t.y()),
+        ("z", 0) => read.push(t.z()),
+        ("t", 0) => read.push(t.t()),
+        ("set_nth", 2) => t.set_nth(if a[0].is_finite() && a[0] >= 0.0 { a[0] as usize } else { usize::MAX }, a[1]),
+        ("set_xy", 2) => t.set_xy(a[0], a[1]),
+        ("set_xyz", 3) => t.set_xyz(a[0], a[1], a[2]),
+        ("set_xyzt", 4) => t.set_xyzt(a[0], a[1], a[2], a[3]),
+        ("fill", 1) => t.fill(a[0]),
+        ("update", _) => t.update(a),
+        _ => return "bad-case".to_string(),
+    }
+    let vals: Vec<String> = (0..t.dim()).map(|i| fbits(t.nth_unchecked(i))).collect();
+    let read: Vec<String> = read.iter().map(|x| fbits(*x)).collect();
+    format!("{} | {}", vals.join(","), read.join(","))
+}
+
+fn exec_tup(fields: &[&str]) -> String {
+    if fields.len() != 4 {
+        return "bad-case".to_string();
+    }
+    let v: Vec<f64> = fields[1].split(',').filter(|x| !x.is_empty()).map(parse_f).collect();
+    let a: Vec<f64> = if fields[3] == "-" { vec![] } else { fields[3].split(',').map(parse_f).collect() };
+    match (fields[0], v.len()) {
+        ("2", 2) => tup_op(Coor2D([v[0], v[1]]), fields[2], &a),
+        ("3", 3) => tup_op(Coor3D([v[0], v[1], v[2]]), fields[2], &a),
+        ("4", 4) => tup_op(Coor4D([v[0], v[1], v[2], v[3]]), fields[2], &a),
+        ("p", 2) => tup_op((v[0], v[1]), fields[2], &a),
+        _ => "bad-case".to_string(),
+    }
 }
 
 /// run the `kp` binary built from the working tree on the case's options, operation and files
